@@ -285,6 +285,58 @@ def raw_dump(res, prog, c):
         res.violation('C20.6', 'C20.6|unified', f, f.line, 'the unified memory list is not memory64_list.take().map(Memory64).or_else(|| memory_list.take().map(Memory))')
 
 
+UI_ONLY = {
+    'human': 'the default mode: never read, it is what remains when neither --json nor --cyborg nor --dump is set',
+    'verbose': 'logging level only',
+    'no_color': 'terminal colouring of log lines only',
+    'no_interactive': 'progress UI only',
+}
+
+
+def options_reach_library(res, prog, c):
+    """C20.7: every option that shapes the report is consulted on every path that reaches the library: for each field
+    of the clap `Cli` struct (except the UI-only ones) some read of it dominates the call of
+    process_minidump_with_options.  An option read in only one arm of a branch is silently ignored on the other
+    (seed: the positional symbol paths dropped whenever --symbols-path is given)."""
+    res.rule('C20.7', 0, floor=15, note='every report-shaping Cli field has a read that dominates process_minidump_with_options')
+    f = c.fn(MAIN)
+    adt = c.adts.get('minidump_stackwalk::Cli')
+    if f is None or adt is None:
+        res.error('C20.7', 'main_result body or struct Cli not found')
+        return
+    fields = [x[0] for x in adt['variants'][0]['fields']]
+    clis = [l for l in range(len(f.locals)) if (f.local_ty(l) or '').split('::')[-1] == 'Cli']
+    proc = [b for b, t in f.calls() if (f.callee(t) or '').endswith('process_minidump_with_options')]
+    if len(proc) != 1 or not clis:
+        res.error('C20.7', 'expected one process_minidump_with_options call and a Cli local')
+        return
+    reads = {}
+
+    def scan(x, b):
+        if isinstance(x, dict):
+            if 'l' in x and 'k' not in x and x['l'] in clis:
+                for e in x.get('p') or []:
+                    if isinstance(e, dict) and 'n' in e:
+                        reads.setdefault(e['n'], set()).add(b)
+                        break
+            for v in x.values():
+                scan(v, b)
+        elif isinstance(x, list):
+            for v in x:
+                scan(v, b)
+    for b in sorted(f.reach):
+        for s_ in f.blocks[b]['s']:
+            if s_['k'] == 'assign':
+                scan(s_['rv'], b)
+        scan(f.blocks[b]['t'], b)
+    for fld in fields:
+        if fld in UI_ONLY:
+            continue
+        res.rule('C20.7', 1)
+        if not any(f.dominates(b, proc[0]) for b in reads.get(fld, ())):
+            res.violation('C20.7', 'C20.7|%s' % fld, f, f.line, 'option field `%s` is %s: on some path to process_minidump_with_options it is ignored' % (fld, 'only read under a branch' if reads.get(fld) else 'never read'))
+
+
 def run(tier, t0):
     res = harness.Result(PID)
     prog = program()
@@ -299,6 +351,7 @@ def run(tier, t0):
         wiring(res, prog, f)
     exit_rules(res, prog, c)
     raw_dump(res, prog, c)
+    options_reach_library(res, prog, c)
     # backing rule for the stats getters (C20.subscriptions)
     res.rule('C20.subscriptions', 0, floor=2, note='stat getters used by the CLI are the ones it subscribed to')
     if f is not None:
@@ -320,7 +373,7 @@ def run(tier, t0):
         'byte equality of the written report with the library\'s output is implied by C20.4/C20.5 (same call, same writer), not checked on values',
         'stdout/stderr write errors other than BrokenPipe surface as io::Error -> exit 1 through main',
     ]
-    return harness.finish(res, tier, t0, distinct=len(nontrivial) + 7, explanation=(
+    return harness.finish(res, tier, t0, distinct=len(nontrivial) + 8, explanation=(
         'Panic-edge inventory over the minidump-stackwalk binary, agreement between the --features value_parser list and the handled arms, '
         'exit discipline (constant status 1 after a diagnostic; no failure exit reachable after a printer call), who may receive the output '
         'writers, and path-sensitive control dependence of each printer call on the option that selects it.'))
